@@ -51,13 +51,14 @@ def _equal_respelled_duplicate(v, m):
 
 @matcher("arbitrary_clause_then_comma_space")
 def _arbitrary_clause_then_comma_space(v, m):
-    """a requirement string in which an `===` clause is directly followed by a comma and then white space
-    (the SPECIFIER token swallows the comma, the next clause is then not a continuation)"""
+    """a requirement string in which an `===` clause is directly followed by a comma, and white space follows before the
+    clause list is over: directly (`===1.0, >=2`) or inside the next clause (`===1.0,>= 2`).  The SPECIFIER token swallows
+    the comma and everything up to that white space; what comes after it is then not a continuation of the list."""
     import random
     import re
     from props.C08 import render
     s = render(random.Random(v["input"]["seed"]), v["input"]["st"], loose=True)
-    return "rejected" in str(v.get("detail", "")) and re.search(r"===[^\s;)]*,[ \t]", s) is not None
+    return "rejected" in str(v.get("detail", "")) and re.search(r"===[ \t]*[^\s;)]*,[^\s;)]*[ \t]+[^\s,;)]", s) is not None
 
 
 @matcher("equal_respelled_duplicate_in_requirement")
